@@ -185,7 +185,21 @@ def run(ctx, repo):
     ctx.rule('R3', 'GRID: no floor/ceil/int of an unguarded float scaling of the mark')
     ctx.rule('R4', 'every return of score is None or a non-negative int expression')
     ctx.rule('R5', 'the unknown-pair guard (key not in table -> None) dominates every table subscript and every may-raise call')
+    # the key itself is built without error whatever the arguments are (an unknown pair may well be None or a number)
+    from ..src import raw_param_text_ops
+    _m = repo.module(ATH)
+    if _m.has_func('scoring_key'):
+        _ops = raw_param_text_ops(_m.func('scoring_key'))
+        for _n, _msg in _ops:
+            ctx.finding('R5', '%s::scoring_key::key construction may raise' % ATH, ATH, _n.lineno,
+                        'scoring_key: %s, so an unknown gender / event pair that is not text is answered with an error, not with None' % _msg,
+                        "('M', None)")
+        if not _ops:
+            ctx.ok('R5', 'scoring_key builds the key with operations that accept any argument')
+
     ctx.rule('R6', 'age path: no undefined names; the factor column selected by find_age is never the text column')
+    ctx.rule('R12', 'every age from 1 up to the year before the first masters band gets the factor 1.0 for every combined-events row '
+                    '(the age part of AthlonsAgeGrader.calculate_factor folded with find_age on the bundled table)')
     ctx.rule('R7', 'hurdles remap equals {(F,80H)->100H, (M,80H)->110H, (M,100H)->110H}')
     ctx.rule('R10', 'every hurdles event of the scoring table is mapped by the masters grader to a row of its table (mapping prelude folded)')
     ctx.rule('R9', 'the kind dispatch of score() accepts every spelling the (upper-casing) key lookup accepts')
@@ -434,6 +448,8 @@ def run(ctx, repo):
     if any(isinstance(st, ast.If) and isinstance(st.test, ast.Compare) and isinstance(st.test.ops[0], ast.NotIn) for st in perf.body):
         pass
 
+    # ---- R12 ages below the first masters band, by folding over the complete domain ages x rows
+    below_band_rule(ctx, repo)
     # ---- R6 age path
     undefined = undefined_names(repo, [ATH, AGE])
     for rel, qual, name, line in undefined:
@@ -616,3 +632,65 @@ def check_text_column(ctx, repo):
     else:
         ctx.ok('R6', 'the age index cannot select the text column (guarded=%s)' % guarded)
     ctx.count('athlon data rows whose column 0 is text', sum(1 for g in ('m', 'f') for r in data[g] if isinstance(r[0], str)))
+
+
+def below_band_rule(ctx, repo):
+    from .. import fold as _fold
+    agm = repo.module(AGE)
+    if not (agm.has_func('AthlonsAgeGrader.calculate_factor') and agm.has_func('AgeGrader.find_age')):
+        return
+    cf = agm.func('AthlonsAgeGrader.calculate_factor')
+    idx = None
+    for i, st in enumerate(cf.body):
+        if any(isinstance(c, ast.Call) and call_name(c) == 'find_age' for c in ast.walk(st)):
+            idx = i
+            break
+    if idx is None:
+        ctx.info('R12: no find_age call at the top level of AthlonsAgeGrader.calculate_factor; below-band ages not decided by folding')
+        return
+    tail = cf.body[idx:]
+    consts = {}
+    for cname in ('AgeGrader', 'AthlonsAgeGrader'):
+        for st in agm.cls(cname).body:
+            if isinstance(st, ast.Assign) and len(st.targets) == 1 and isinstance(st.targets[0], ast.Name) and isinstance(st.value, ast.Constant):
+                consts[st.targets[0].id] = st.value.value
+    menv = dict(repo.folded(AGE)[0])
+    methods = {q.split('.')[-1]: _fold.FuncConst(f, menv) for q, f in agm.functions.items() if q.startswith('AgeGrader.') and q.split('.')[-1] in ('find_age',)}
+    data = repo.json('athlib/wma/wma-athlons-data.json')
+    ages = data.get('ages')
+    first_band = consts.get('min_age', 35)
+    pnames = [a.arg for a in cf.args.args]
+    agep = pnames[2] if len(pnames) > 2 else 'age'
+    # names the tail reads that the prelude defines: the table, the ages, the row index
+    bad, n = None, 0
+    for g in ('m', 'f'):
+        table = data.get(g) or []
+        for fx in range(len(table)):
+            for a in range(1, int(first_band)):
+                env = dict(menv)
+                env.update({pnames[0]: _fold.ObjConst(dict(consts), methods), agep: a, 'ages': ages, 'table': table, 'fx': fx,
+                            'data': data, 'gender': g})
+                try:
+                    out = None
+                    try:
+                        for st in tail:
+                            _fold.Folder().stmt(st, env)
+                    except _fold._Return as r:
+                        out = r.v
+                except _fold._Raise as ex:
+                    out = 'raises %s' % ex.name
+                except _fold.Unfoldable as e:
+                    ctx.info('R12: the age part of calculate_factor is not foldable (%s); below-band ages not decided' % e)
+                    return
+                except Exception as e:
+                    out = 'raises %s' % type(e).__name__
+                n += 1
+                if out != 1.0 and bad is None:
+                    bad = (g, table[fx][consts.get('event_column', 0)], a, out)
+    ctx.count('(gender, row, age below the first band) combinations folded', n)
+    if bad:
+        ctx.finding('R12', '%s::AthlonsAgeGrader.calculate_factor::age below the first masters band is adjusted' % AGE, AGE, cf.lineno,
+                    'for %s %s at age %s the factor is %r, not 1.0: an age below the first masters band (%s) must leave the score unadjusted'
+                    % (bad[0], bad[1], bad[2], bad[3], first_band), {'gender': bad[0], 'event': bad[1], 'age': bad[2]})
+    elif n:
+        ctx.ok('R12', 'factor 1.0 for all %d (gender, row, age 1..%d) combinations' % (n, first_band - 1))
